@@ -14,7 +14,7 @@ From Coq Require Import List NArith Bool Arith.
 From Astisub Require Import Kit.Base Kit.Scan Kit.IOW Model.Srt Model.Vtt Proofs.ScanProofs Proofs.SrtIOProofs Proofs.VttIOProofs.
 From Astisub Require Import Model.Ssa Proofs.SsaIOProofs.
 From Astisub Require Import Model.Stl Model.StlIO Proofs.StlIOProofs.
-From Astisub Require Import Model.Ttml Proofs.TtmlIO.
+From Astisub Require Import Model.Ttml Proofs.TtmlIO Model.TtmlGo Proofs.TtmlGoProofs.
 Import ListNotations.
 
 Theorem C18_read_srt_fault : forall ls, exists k, read_srt_lines ls true = Err k.
@@ -72,11 +72,11 @@ Proof. exact write_ssa_complete. Qed.
    (not modelled): bufio.Writer and the encoder hand over every byte in order and report the first error; on the
    reader side xml.Decoder's own read loop returns the stream's error (exercised by the harness at every offset). *)
 Theorem C18_write_ttml_fault : forall (cut : list N -> list (list N)), (forall s, concat (cut s) = s) ->
-  forall ind d doc k, write_ttml_bytes ind d = Ok doc -> (k < length doc)%nat -> write_ttml_to cut ind d (fail_at k) = Err EIO.
-Proof. exact write_ttml_fault. Qed.
+  forall ind d doc k, write_ttml_bytes_go ind d = Ok doc -> (k < length doc)%nat -> write_ttml_to_go cut ind d (fail_at k) = Err EIO.
+Proof. exact write_ttml_go_fault. Qed.
 Theorem C18_write_ttml_complete : forall (cut : list N -> list (list N)), (forall s, concat (cut s) = s) ->
-  forall ind d doc, write_ttml_bytes ind d = Ok doc -> write_ttml_to cut ind d ok_dest = Ok (length doc).
-Proof. exact write_ttml_complete. Qed.
+  forall ind d doc, write_ttml_bytes_go ind d = Ok doc -> write_ttml_to_go cut ind d ok_dest = Ok (length doc).
+Proof. exact write_ttml_go_complete. Qed.
 (* a stream failing after k bytes under any delivery schedule: the readers return an error, not a shorter cue list *)
 Theorem C18_read_fault_at_offset : forall data k counts,
   (exists e, read_srt_lines (fst (scan_fail data k counts)) (snd (scan_fail data k counts)) = Err e) /\
